@@ -207,6 +207,10 @@ impl Prop for C06P {
             _ => run_shape::<TrackedZst>(c, r, ctx),
         }
     }
+    fn page_guard(&self, tier: Tier, profile: Profile) -> bool {
+        let _ = (tier, profile);
+        true
+    }
     fn rule(&self) -> String {
         "every shape (0..=N)^2 x {insert_row, push_row, insert_col, push_col} x every index 0..=dim+1 x every supplied length 0..=otherdim+1 x element type {u32, Tracked (drop ledger), TrackedZst (zero-sized)} x {exact, spare} capacity x iterator source {Vec, custom exact-size double-ended iterator, array, Vec::drain}. \
          Valid per the statement (index <= dim and length == other dim, or array empty) => no panic, result equals the model insertion cell for cell, the dimension grew by one (or stayed (0,0)), ledger balanced; otherwise => panic, and the array is still valid (shape invariant, every cell live and distinct, droppable without a double drop). \
